@@ -60,4 +60,17 @@ mod verif_kani_print {
         // no drop glue: dropping PrintTarget / Box<dyn Write> / File costs CBMC more than the functions under test
         std::mem::forget(info); std::mem::forget(st); std::mem::forget(data); std::mem::forget(cones);
     }
+
+    // C04 "every solve terminates cleanly": the figure formatter of the verbose status lines must not panic on the values an
+    // ill-posed problem produces (inf, -inf, NaN): `expformat!` sends only finite values through `_exp_str_reformat`, which
+    // unwraps the position of the exponent marker.  Concrete, loop bounds from the format machinery only => complete for these inputs.
+    #[kani::proof]
+    #[kani::unwind(12)]
+    fn expformat_nonfinite_no_panic() {
+        let a = expformat!("{:+8.4e}", f64::INFINITY);
+        let b = expformat!("{:+8.4e}", f64::NEG_INFINITY);
+        let c = expformat!("{:+8.4e}", f64::NAN);
+        assert!(a.len() >= 3 && b.len() >= 3 && c.len() >= 3);
+        std::mem::forget(a); std::mem::forget(b); std::mem::forget(c);
+    }
 }
